@@ -158,6 +158,42 @@ def run_storedrv(bindir, upath, histories, wd, tag, filters_path=None, extra=Fal
     return files
 
 
+def run_storedrv2(bindir, upath, histories, wd, tag, filters_path, no_probe=False, shards=None, timeout=1800):
+    """like run_storedrv, for query checks: the filters file feeds explicit `queries` ops (no_probe)
+    or is executed after every call"""
+    shards = shards or min(NCPU, max(1, len(histories) // 50))
+    files, procs = [], []
+    per = (len(histories) + shards - 1) // shards
+    hid = 0
+    for s in range(shards):
+        chunk = histories[s * per:(s + 1) * per]
+        if not chunk:
+            continue
+        hp = os.path.join(wd, "%s_h%d.ndjson" % (tag, s))
+        tp = os.path.join(wd, "%s_t%d.ndjson" % (tag, s))
+        with open(hp, "w") as f:
+            for ops in chunk:
+                f.write(json.dumps({"id": hid, "ops": ops}) + "\n")
+                hid += 1
+        cmd = [os.path.join(bindir, "storedrv"), "--universe", upath, "--hist", hp, "--out", tp, "--filters", filters_path]
+        if no_probe:
+            cmd.append("--no-probe")
+        procs.append((subprocess.Popen(cmd, stdout=subprocess.PIPE, stderr=subprocess.STDOUT), hp, tp, cmd))
+        files.append(tp)
+    t0 = time.time()
+    for p, hp, tp, cmd in procs:
+        try:
+            out, _ = p.communicate(timeout=max(1, timeout - (time.time() - t0)))
+        except subprocess.TimeoutExpired:
+            p.kill()
+            p.communicate()
+            _isolate_failure(cmd, hp, tp, "timeout")
+            continue
+        if p.returncode != 0:
+            _isolate_failure(cmd, hp, tp, "exit %s: %s" % (p.returncode, (out or b"")[-300:]))
+    return files
+
+
 def _isolate_failure(cmd, hp, tp, why):
     """A crash / hang of the code under test inside a batch: re-run the batch one history at a
     time so that it costs one history, which is recorded as a line with res = "crash"."""
